@@ -3,7 +3,11 @@
 package adapter
 
 import (
+	"context"
+	"io"
 	"net"
+
+	"tunnox-core/internal/core/types"
 
 	"github.com/gorilla/websocket"
 )
@@ -12,3 +16,10 @@ import (
 
 func VerifNewWSServerConn(conn *websocket.Conn) net.Conn { return newWSServerConn(conn, "verif") }
 func VerifNewWSClientConn(conn *websocket.Conn) net.Conn { return newWSClientConn(conn) }
+
+// VerifHandleConnection runs the generic per-connection logic (accept, read loop, cleanup) of a TCP
+// adapter on the given connection, as TcpAdapter's accept loop does.
+func VerifHandleConnection(ctx context.Context, sess types.Session, conn io.ReadWriteCloser) {
+	a := NewTcpAdapter(ctx, sess)
+	a.BaseAdapter.handleConnection(a, conn)
+}
